@@ -5,7 +5,8 @@ cd "$(dirname "$0")" || exit 2
 export GOFLAGS=-mod=mod GOPROXY=off GOSUMDB=off GOTOOLCHAIN=local VERIF_ROOT="$(pwd)"
 id="$1"; tier="${2:-quick}"; shift; [ $# -gt 0 ] && shift
 mkdir -p bin
-if ! go build -o "bin/vcheck-$id" ./cmd/vcheck 2> "bin/build-$id.log"; then
+tools/mkoverlay.sh "bin/overlay-$id.json"
+if ! go build -tags verif -overlay "bin/overlay-$id.json" -o "bin/vcheck-$id" ./cmd/vcheck 2> "bin/build-$id.log"; then
   # a tree that does not build is not a property verdict
   echo "HARNESS-ERROR check=$id harness does not build against /repo:" >&2
   cat "bin/build-$id.log" >&2
